@@ -416,13 +416,14 @@ pub struct ExploreStats {
     pub outcomes: u64,
     pub partial_chain_states: u64,
     pub err_transitions: u64,
+    pub decoder_disagreements: u64,
 }
 
 /// Breadth-first exploration up to `max_depth`; `owned` are the clause prefixes this check
 /// reports. Returns the statistics; violations go to `run`.
 pub fn explore(run: &mut Run, fam: &Family, max_depth: usize, cap_secs: f64, owned: &[&str]) -> ExploreStats {
     let t0 = Instant::now();
-    let mut st = ExploreStats { states: 1, transitions: 0, depth_completed: 0, capped: false, tainted: 0, foreign: BTreeMap::new(), counts: BTreeMap::new(), outcomes: 0, partial_chain_states: 0, err_transitions: 0 };
+    let mut st = ExploreStats { states: 1, transitions: 0, depth_completed: 0, capped: false, tainted: 0, foreign: BTreeMap::new(), counts: BTreeMap::new(), outcomes: 0, partial_chain_states: 0, err_transitions: 0, decoder_disagreements: 0 };
     let mut seen: HashSet<u128> = HashSet::new();
     let mut outcome_kinds: HashSet<u128> = HashSet::new();
 
@@ -550,12 +551,12 @@ fn handle_failures(run: &mut Run, fam: &Family, hist: &[Op], op: Option<&Op>, fa
         ops.push(o.to_string());
     }
     let replay = json!({"engine": "histex", "family": fam.name, "config": crate::wire::NAME, "ops": ops});
-    // the wire decoder is the observation channel of every histex check: if it and the library
-    // disagree on the layout, only C13 may give a verdict; every other check stops as machinery
-    if !owned.iter().any(|p| p.starts_with("C13")) {
-        if let Some(f) = fails.iter().find(|f| f.clause == "C13.w") {
-            machinery(&format!("the independent wire decoder and the library disagree ({}); this is C13's verdict to give - run `bin/check C13 quick`", f.msg));
-        }
+    // the wire decoder is the observation channel of every histex check: a disagreement with
+    // the library on the layout is C13's verdict to give; for any other check it is counted and,
+    // if the run ends without a violation of its own, the run is a machinery failure (its
+    // coverage is compromised), never a silent pass
+    if !owned.iter().any(|p| p.starts_with("C13")) && fails.iter().any(|f| f.clause == "C13.w") {
+        st.decoder_disagreements += 1;
     }
     // a listed finding taints the history whatever property is being checked
     if let Some(id) = fails.iter().find_map(classify) {
@@ -612,6 +613,7 @@ pub fn stats_json(fam: &Family, st: &ExploreStats) -> serde_json::Value {
         "distinct_transition_outcomes": st.outcomes,
         "states_with_partially_rotated_keys": st.partial_chain_states,
         "transitions_returning_err": st.err_transitions,
+        "wire_decoder_disagreements": st.decoder_disagreements,
         "real_api_calls": st.counts,
     })
 }
